@@ -2,6 +2,7 @@ import Q1t.Model.FromStringTables
 import Q1t.Spec.FromString
 import Q1t.Spec.Unitaries
 import Q1t.Proofs.FromStringAssembled
+import Q1t.Proofs.FromStringAst
 /-!
 # C15 — composite descriptions build exactly the described gate sequence
 
@@ -20,7 +21,7 @@ open Q1t Q1t.FromString Q1t.Spec.FromString
 open Q1t.Expr (FloatOps)
 open Q1t.Spec.ExprGrammar (Cst Conv Stops allDigits)
 open Q1t.Proofs.Expr (interpOf headNB)
-open Q1t.Proofs.FromString (errOf okShape unitOps joinSemi optTail restG)
+open Q1t.Proofs.FromString (errOf okShape unitOps joinSemi optTail restG PartA ArgA)
 
 /-! ## (0) the tables of the source -/
 
@@ -77,6 +78,19 @@ theorem from_string_render_partial {F : Type} (I : FloatOps F) (hneg : ∀ x, I.
     ∃ ops, expectedOps (interpOf I) ps = some ops ∧
       fromString I genTables name (renderDesc ps) = .ok (.Composite name (maxIndex ps + 1) ops) :=
   Q1t.Proofs.FromString.render_gen I hneg name ps hne h
+
+/-- The same for arguments given as abstract syntax trees: ∀ `Ast` with well-formed tokens, ∀ layout of C14's
+conventional renderer (`layOut`: minimal parentheses, blanks and redundant parentheses from the `Layout`), the part
+`p.toL` has the rendered arguments; the parameters of the resulting gates are the conventional values of the trees. -/
+theorem from_string_render_ast_partial {F : Type} (I : FloatOps F) (hneg : ∀ x, I.neg (I.neg x) = x) (name : String)
+    (ps : List PartA) (hne : ps ≠ [])
+    (h : ∀ p ∈ ps, p.OK ∧ p.toL.Matches = true ∧ ∀ b ∈ p.bits, b.val + 1 < 2 ^ 64) :
+    (∃ ops, expectedOps (interpOf I) (ps.map PartA.toL) = some ops ∧
+      fromString I genTables name (renderDesc (ps.map PartA.toL)) =
+        .ok (.Composite name (maxIndex (ps.map PartA.toL) + 1) ops)) ∧
+    ∀ p ∈ ps, p.toL.params (interpOf I) = p.args.map (fun x => Q1t.Spec.ExprGrammar.evalConv (interpOf I) x.a) :=
+  ⟨Q1t.Proofs.FromString.render_ast_gen I hneg name ps hne h,
+   fun p hp => Q1t.Proofs.FromString.params_toL (interpOf I) (h p hp).1⟩
 
 /-- … hence (documented unitary of a composite, C05) the gate acts as the ordered product of the documented
 unitaries of the listed gates embedded on the listed qubits: ∀ amplitude type, ∀ gate list. -/
